@@ -194,6 +194,8 @@ def check(run):
             if r.get("timeout"):
                 run.known_finding(k["id"], "%s: %s (%s)" % (k["id"], k["what"], k["replay"]["program"]))
     stats["distinct_instantiation_types"] = len(stats["distinct_instantiation_types"])
+    if not broken and stats["agree"] * 2 < n:
+        broken.append(Broken("generator", "fewer than half of the generated pairs were accepted and compared (%d of %d): the exploration does not cover the property" % (stats["agree"], n)))
     run.add_cases(n, stats["agree"], samples=[Ps[0][Ps[0].index("fn main") :][:600], Pms[0][Pms[0].index("fn main") :][:400]])
     run.cov["rule"] = (
         "pairs (P, P'): P uses %d generic functions/methods (unbounded, trait-bounded with 2 methods, generic calling generic at derived types, same-instance recursion, local closure over T, "
